@@ -1,1 +1,51 @@
 // verif hook module for src/constraint_matrix.rs (compiled only with --cfg cberner_raptorq_verif)
+#![allow(dead_code, unused_imports)]
+use super::*;
+
+#[cfg(kani)]
+pub(crate) mod kani_encidx {
+    use super::super::*;
+    use crate::systematic_constants::verif_hooks::p1_row;
+    use crate::systematic_constants::SYSTEMATIC_INDICES_AND_PARAMETERS;
+    use crate::verif::rfc::enc_indices_spec;
+
+    // C15/C04: enc_indices for a symbolic table row and ANY tuple within the ranges Tuple[] guarantees:
+    // calls the closure exactly d + d1 times with the RFC Enc index sequence, every index < L;
+    // the `while b1 >= P` loops stop within P1 - P + 1 <= 14 steps (unwinding assertion = termination obligation).
+    #[kani::proof]
+    #[kani::unwind(31)]
+    pub(crate) fn enc_indices_matches_rfc() {
+        let idx: usize = kani::any();
+        kani::assume(idx < 477);
+        let (kp, _j, s, h, w) = SYSTEMATIC_INDICES_AND_PARAMETERS[idx];
+        let p1 = p1_row(idx).1;
+        let l = kp + s + h;
+        let p = l - w;
+        let d: u32 = kani::any();
+        let a: u32 = kani::any();
+        let b: u32 = kani::any();
+        let d1: u32 = kani::any();
+        let a1: u32 = kani::any();
+        let b1: u32 = kani::any();
+        kani::assume(1 <= d && d <= 30 && d <= w - 2);
+        kani::assume(1 <= a && a < w && b < w);
+        kani::assume(d1 == 2 || d1 == 3);
+        kani::assume(1 <= a1 && a1 < p1 && b1 < p1);
+        let t = (d, a, b, d1, a1, b1);
+        let mut got = [0u64; 33];
+        let mut n = 0usize;
+        enc_indices(t, w, p, p1, |i| {
+            if n < 33 {
+                got[n] = i as u64;
+            }
+            n += 1;
+        });
+        let (want, wn) = enc_indices_spec(t, w, p, p1);
+        assert!(n == wn && n == (d + d1) as usize, "C15 enc_indices yields d + d1 indices");
+        let k: usize = kani::any();
+        kani::assume(k < n);
+        assert!(got[k] == want[k], "C15 enc_indices == RFC Enc index sequence");
+        assert!(got[k] < l as u64, "C15 every Enc index < L");
+        kani::cover!(d == 30 && d1 == 3, "reach");
+    }
+}
